@@ -63,6 +63,24 @@ partial def parseG : List String → Option (List (G × Bool))
     pure ((⟨a, b, c, d, v == "1"⟩, o == "1") :: tl)
   | _ => none
 
+/-- `xadv yadv xoff yoff k x1 y1 … xk yk` per glyph -/
+partial def parseGO : List String → Option (List (G × List (Int × Int)))
+  | [] => some []
+  | a :: b :: c :: d :: k :: rest => do
+    let a ← a.toInt?
+    let b ← b.toInt?
+    let c ← c.toInt?
+    let d ← d.toInt?
+    let k ← k.toNat?
+    if rest.length < 2 * k then none else
+    let cs ← ints? (rest.take (2 * k))
+    let rec pairs : List Int → List (Int × Int)
+      | x :: y :: r => (x, y) :: pairs r
+      | _ => []
+    let tl ← parseGO (rest.drop (2 * k))
+    pure ((⟨a, b, c, d, false⟩, pairs cs) :: tl)
+  | _ => none
+
 def handle : List String → Option String
   | "SUB" :: ts => do
     let gs ← nats? ts
@@ -102,6 +120,12 @@ def handle : List String → Option String
     let upm ← upm.toInt?
     let adv ← adv.toInt?
     pure (toString (wWidth upm adv))
+  | "PATH" :: f :: x :: y :: ts => do
+    let f ← f.toInt?
+    let x ← x.toInt?
+    let y ← y.toInt?
+    let gs ← parseGO ts
+    pure (joinS ((toPathPts f x y gs).map (fun p => toString p.1 ++ " " ++ toString p.2)))
   | "PEN" :: x :: y :: ts => do
     let x ← x.toInt?
     let y ← y.toInt?
